@@ -274,3 +274,26 @@ package frame
 //@              rw.Writer.OutSystemID == rw.OutSystemID && rw.Writer.OutSignatureLinkID == rw.OutSignatureLinkID &&
 //@              (rw.OutComponentID >= 1 ==> rw.Writer.OutComponentID == rw.OutComponentID) && (rw.OutComponentID < 1 ==> rw.Writer.OutComponentID == 1)
 //@   modifies rw.Reader, rw.Writer
+
+// deprecated constructors: every option reaches the field of the same name; verified on their own, inlined at call sites
+//@ func NewReader returns (r, err)
+//@   inline
+//@   ensures  r != nil && r.ByteReader == conf.Reader && r.DialectRW == conf.DialectRW && r.InKey == conf.InKey
+//@   ensures  (err == nil) == (conf.Reader != nil)
+//@   modifies nothing
+
+//@ func NewWriter returns (w, err)
+//@   inline
+//@   ensures  w != nil && w.ByteWriter == conf.Writer && w.DialectRW == conf.DialectRW && w.OutVersion == conf.OutVersion &&
+//@            w.OutSystemID == conf.OutSystemID && w.OutSignatureLinkID == conf.OutSignatureLinkID && w.OutKey == conf.OutKey &&
+//@            (err == nil && conf.OutComponentID >= 1 ==> w.OutComponentID == conf.OutComponentID)
+//@   ensures  (err == nil) == (conf.Writer != nil)
+//@   modifies nothing
+
+//@ func NewReadWriter returns (rw, err)
+//@   ghostlog (*frame.ReadWriter).Initialize
+//@   ensures  rw != nil && rw.ByteReadWriter == conf.ReadWriter && rw.DialectRW == conf.DialectRW && rw.InKey == conf.InKey && rw.OutKey == conf.OutKey &&
+//@            rw.OutVersion == conf.OutVersion && rw.OutSystemID == conf.OutSystemID && rw.OutComponentID == conf.OutComponentID &&
+//@            rw.OutSignatureLinkID == conf.OutSignatureLinkID
+//@   ensures  logLen() == 1 && logCallee(0, "(*frame.ReadWriter).Initialize") && logArgIsPtr(0, 0, rw) && err == logRetErr(0)
+//@   modifies ghost:log
